@@ -385,11 +385,37 @@ class Exec:
         self.syms = {}
         self.boxes = []
 
-    def _check(self, *args):
+    CROSS_EVERY = int(os.environ.get('VERIF_CVC5_EVERY', '20000'))
+
+    def _check(self, *args, force_cross=False):
         t = time.perf_counter()
         r = self.solver.check(*args)
         self.solver_s += time.perf_counter() - t
+        self._nchecks = getattr(self, '_nchecks', 0) + 1
+        if force_cross or (self.CROSS_EVERY and self._nchecks % self.CROSS_EVERY == 0):
+            self._cross_check(r, args)
         return r
+
+    def _cross_check(self, r, args):
+        """second solver: the same query through SMT-LIB2 to cvc5; disagreement makes the run inconclusive"""
+        import subprocess
+        s2 = z3.Solver()
+        s2.add(self.solver.assertions())
+        for a in args:
+            s2.add(a)
+        text = '(set-logic ALL)\n' + s2.to_smt2()
+        try:
+            p = subprocess.run(['cvc5', '--lang', 'smt2', '--tlimit=20000'], input=text, capture_output=True, text=True, timeout=30)
+        except Exception as e:          # cvc5 missing or stuck: recorded, not fatal
+            self.cross_skipped = getattr(self, 'cross_skipped', 0) + 1
+            return
+        out = p.stdout.strip().split('\n')[-1] if p.stdout.strip() else ''
+        if '(error' in p.stdout or out not in ('sat', 'unsat'):
+            self.cross_skipped = getattr(self, 'cross_skipped', 0) + 1
+            return
+        self.cross_checked = getattr(self, 'cross_checked', 0) + 1
+        if out != str(r):
+            raise Unsupported(f'solver disagreement: z3 says {r}, cvc5 says {out}')
 
     # ---- symbols
     def sym_int(self, name):
@@ -490,7 +516,7 @@ class Exec:
             if r == z3.sat:
                 for i, c in sym:
                     self.solver_calls += 1
-                    if self._check(z3.Not(c)) == z3.sat:
+                    if self._check(z3.Not(c), force_cross=not out) == z3.sat:
                         out.append((i, self.solver.model()))
         return sorted(out, key=lambda t: t[0])
 
@@ -962,7 +988,8 @@ class Exec:
 
 def explore(ex: Exec, harness, max_paths=10 ** 9):
     """DFS over the decision tree by re-execution.  harness(ex) -> list of findings (or None)."""
-    stats = dict(paths=0, infeasible=0, findings=[], steps=0, solver_calls=0, asserts=0, solver_s=0.0)
+    stats = dict(paths=0, infeasible=0, findings=[], steps=0, solver_calls=0, asserts=0, solver_s=0.0, cross=0)
+    c0 = getattr(ex, 'cross_checked', 0)
     prefix = []
     while True:
         ex.reset(prefix)
@@ -987,6 +1014,7 @@ def explore(ex: Exec, harness, max_paths=10 ** 9):
                 break
             tr.pop()
         if not tr or stats['paths'] >= max_paths:
+            stats['cross'] = getattr(ex, 'cross_checked', 0) - c0
             return stats
         prefix = list(tr)
 
